@@ -308,7 +308,7 @@ func (g *gen) Bool() *N {
 			return nBin(op, g.Int(), g.Seq())
 		case 8:
 			// literal range: the optimiser rewrites this into two comparisons
-			if g.cfg.NoInRange {
+			if g.cfg.NoInRange || g.cfg.AllocOnly {
 				continue
 			}
 			op := g.r.Pick([]string{"in", "not in"})
@@ -317,6 +317,9 @@ func (g *gen) Bool() *N {
 			return nBin(op, g.Int(), nBin("..", nInt(lo), nInt(hi)))
 		case 9:
 			// literal array: the optimiser rewrites this into a map lookup
+			if g.cfg.AllocOnly {
+				continue // whether a constant array is built at run time depends on the optimiser
+			}
 			op := g.r.Pick([]string{"in", "not in"})
 			k := g.r.Range(1, 4)
 			xs := make([]*N, k)
@@ -380,7 +383,7 @@ func (g *gen) Bool() *N {
 			}
 			return nBin(g.r.Pick([]string{"==", "!="}), p, &N{K: "nil"})
 		case 17:
-			if !g.cfg.Strings {
+			if !g.cfg.Strings || g.cfg.AllocOnly {
 				continue
 			}
 			k := g.r.Range(1, 3)
